@@ -186,16 +186,28 @@ def worker(spec):
     specs += [s for s in chains.enumerate_specs(spec["depth"], rng=rng, sample=spec["sample"])]
     specs = [s for i, s in enumerate(specs) if i % spec["parts"] == spec["part"]]
     # very deep chains: > 100 await / yield-from levels, each level a real frame
+    # (first, so that a time budget cut on a loaded machine never drops them)
     if spec["part"] == 0:
         for n in (101, 120, 140):
-            specs.append(("gen", [("yf", 0, 0)] * n, "yield"))
-            specs.append(("co", [("co", 0, 0)] * n, "trap"))
+            specs.insert(0, ("gen", [("yf", 0, 0)] * n, "yield"))
+            specs.insert(0, ("co", [("co", 0, 0)] * n, "trap"))
     state = {}
+    from vlib import runaway
+    guard = runaway.install(2000000)
     for cs in specs:
         if budget.over():
             res.count("budget_cut")
             break
-        n = check_chain(cs, res, interp, chains, stackscope, state)
+        guard.reset()
+        try:
+            n = check_chain(cs, res, interp, chains, stackscope, state)
+        except runaway.Runaway as ex:
+            # decided on steps, not on time: every chain here is finite (at most 140 levels, a few suspensions)
+            res.violation(kind="extraction of a finite chain does not terminate", spec=repr(cs), detail=str(ex),
+                          largest_count_on_completed_chains=guard.max_seen, interp=interp)
+            if res.counters.get("violations", 0) >= 5:
+                break
+            continue
         res.count("chains")
         if len(cs[1]) > 100:
             res.count("chains_deeper_than_100")
@@ -204,4 +216,6 @@ def worker(spec):
         res.count("chains_root_" + cs[0])
         if len(res.samples) < 2 and len(cs[1]) >= 2:
             res.sample({"spec": repr(cs), "suspensions": n})
+    guard.reset()
+    res.counters["max_unwrap_steps_per_chain"] = guard.max_seen
     return res
